@@ -22,7 +22,8 @@ import vlib
 
 SEGS = ["a", "b", ":x", ":y", "*", ""]
 SEGS_WIDE = ["a", "b", ":x", ":y", "*", "", ":", "**", "a*", "a:b"]
-SEGS_COLON = ["a", "a:b", ":x", "*", ""]          # a colon after position 0 is a literal (starts_with, not contains)
+SEGS_COLON = ["a", "a:b", ":x", "*", ""]
+SEGS_CASE = ["a", "A", "ab", "ac", "aB", ":x", "*"]    # literals differing only in case / by one character          # a colon after position 0 is a literal (starts_with, not contains)
 SEGS_DEEP = ["a", "b", ":x", "*", ""]
 
 
@@ -230,7 +231,11 @@ def gen_run(r):
                 nr.append((gen_route(r, paths[i + 1:] or paths), nextid[0]))
                 nextid[0] += 1
         sender = None if r.random() < 0.15 else ":1.%d" % r.randint(1, 99)
-        msgs.append({"serial": 10 + i, "typ": typ, "obj": paths[i] if has_path else None, "sender": sender,
+        flags = r.choice([0, 0, 1, 1, 2, 4, 255])           # 1 = NO_REPLY_EXPECTED: the property still asks for one reply
+        dest = r.choice([None, None, "org.me", ":1.1"])
+        inbody = r.choice([None, None, "x", "payload"])
+        bo = r.choice("llB")
+        msgs.append({"flags": flags, "dest": dest, "inbody": inbody, "bo": bo, "serial": 10 + i, "typ": typ, "obj": paths[i] if has_path else None, "sender": sender,
                      "res": res, "body": body, "newroutes": nr})
     return {"routes": routes, "msgs": msgs}
 
@@ -244,7 +249,9 @@ def run_line(case):
     for m in case["msgs"]:
         ms.append(";".join([str(m["serial"]), m["typ"], hx(m["obj"]) if m["obj"] is not None else "-",
                             hx(m["sender"]) if m["sender"] is not None else "-", m["res"],
-                            hx(m["body"]) if m["res"] == "S" else "-", fmt_routes(m["newroutes"])]))
+                            hx(m["body"]) if m["res"] == "S" else "-", fmt_routes(m["newroutes"]),
+                            str(m.get("flags", 0)), hx(m["dest"]) if m.get("dest") is not None else "-",
+                            hx(m["inbody"]) if m.get("inbody") is not None else "-", m.get("bo", "l")]))
     return "%s %s" % (fmt_routes(case["routes"]), "|".join(ms) if ms else "-")
 
 
@@ -343,6 +350,8 @@ def check_run(ctx, exe, drv, cases):
                  sample={"case": run_line(c), "impl": li} if nt and len(c["msgs"]) >= 4 and len(ctx.samples) < 6 else None)
         ctx.count("run:msgs=%d" % len(c["msgs"]))
         for m in c["msgs"]:
+            ctx.count("run:flags=%d" % m.get("flags", 0))
+            ctx.count("run:byte_order=%s" % m.get("bo", "l"))
             ctx.count("run:msg_type=%s%s" % ({"c": "call", "k": "call+reply_serial", "s": "signal", "r": "method_return", "e": "error"}[m["typ"]],
                                              "" if m["obj"] is not None else "(no path)"))
         ctx.count("run:failing_handlers=%d" % om["end"].count("handler"))
@@ -395,7 +404,9 @@ def parse_run_line(routes, msgs):
             f = m.split(";")
             out.append({"serial": int(f[0]), "typ": f[1], "obj": None if f[2] == "-" else unhx(f[2]).decode(),
                         "sender": None if f[3] == "-" else unhx(f[3]).decode(), "res": f[4],
-                        "body": unhx(f[5]).decode(), "newroutes": parse_routes(f[6])})
+                        "body": unhx(f[5]).decode(), "newroutes": parse_routes(f[6]),
+                        "flags": int(f[7]) if len(f) > 7 else 0, "dest": None if len(f) <= 8 or f[8] == "-" else unhx(f[8]).decode(),
+                        "inbody": None if len(f) <= 9 or f[9] == "-" else unhx(f[9]).decode(), "bo": f[10] if len(f) > 10 else "l"})
     return {"routes": parse_routes(routes), "msgs": out}
 
 
@@ -454,7 +465,8 @@ def run(ctx):
                 "(enumerated inside harness and extracted model; thorough adds 1..5 segments of {a,b,:x,*,\"\"} and 1..3 of a wider "
                 "alphabet with ':', '**', 'a*'), plus generated long/odd pairs and 2-5-entry matchers built around a query; "
                 "(b) DispatchConn::run over a scripted socket: 0-4 initial routes, 1-8 incoming messages (calls, signals "
-                "with a path, method returns and errors with and without a path), handlers returning Some/None/Err and adding routes. Non-trivial: matcher "
+                "with a path, method returns and errors with and without a path; flags 0/1(NO_REPLY_EXPECTED)/2/4/255, optional destination, "
+                "optional string body, both byte orders), handlers returning Some/None/Err and adding routes. Non-trivial: matcher "
                 "pair whose pattern has a named or wildcard part and whose path is not shorter than the pattern; "
                 "multi-entry case with at least one matching entry; run in which a non-default handler is invoked or a "
                 "route is added. Distinct = distinct inputs (hashed); enumerated pairs are distinct by construction.")
@@ -484,6 +496,7 @@ def run(ctx):
     total = enum_compare(ctx, exe, drv, SEGS, 4, "6 segs<=4")
     ctx.extra["exhaustive_matcher_scope"] = "all %d pairs: patterns and paths of 1..4 segments over %s" % (total, SEGS)
     enum_compare(ctx, exe, drv, SEGS_COLON, 3, "colon segs<=3")
+    enum_compare(ctx, exe, drv, SEGS_CASE, 3, "case/one-char segs<=3")
     if thorough:
         enum_compare(ctx, exe, drv, SEGS_DEEP, 5, "5 segs<=5")
         enum_compare(ctx, exe, drv, SEGS_WIDE, 3, "10 segs<=3")
